@@ -61,7 +61,9 @@ def to_harness(idx, fam, c, seed):
     hc = {"id": str(idx), "files": files, "fresh": False,
           "depth": c["lim"] if c["lim"] <= len(c["disk"]) else 0,
           "size": SIZE_LIMIT if big else 0,
-          "ops": [{"op": "load", "file": root}, {"op": "reset"}, {"op": "loadcontent", "file": root, "content": files[root]}]}
+          # resolved three times: by a fresh loader, again by the SAME loader (every included file now comes from its cache:
+          # limits and cycle verdicts must not depend on that), and from the editor's text by another fresh loader
+          "ops": [{"op": "load", "file": root}, {"op": "load", "file": root}, {"op": "reset"}, {"op": "loadcontent", "file": root, "content": files[root]}]}
     return hc
 
 
@@ -81,7 +83,7 @@ def evaluate(run, fam, c, res):
             continue
         best = da if len(da) <= len(db) else db
         for sig, what in best:
-            divs_all.append((sig, "%s [%s]" % (what, step["op"])))
+            divs_all.append((sig, "%s [%s%s]" % (what, step["op"], " by a loader whose cache is warm" if step is res["steps"][1] else "")))
     # dedupe identical findings from the two entry points
     seen = set()
     out = []
